@@ -28,9 +28,9 @@ ANCHOR_FILES = ["src/ropt/optimization/_optimizer.py", "src/ropt/plugins/plan/op
 RULE = ("case = (base configuration, fault kind); inside: all fault positions of that kind; a faulted run is non-trivial if the fault was actually reached; distinct key = (case, fault); "
         "monitor_counters: runs per fault kind, expected TOO_FEW runs, budget checks")
 ASSUMPTIONS = ["evaluators are deterministic, so a run with max_functions follows the unlimited run up to the stop", "realization weights are positive in this check (zero weights are C01/C06 territory)"]
-REQUIRED = {"quick": {"nan_fault_runs": 1500, "expected_too_few_runs": 700, "expected_ok_runs": 400, "max_functions_runs": 1000, "user_exception_runs": 400,
+REQUIRED = {"quick": {"nan_fault_runs": 1500, "expected_too_few_runs": 700, "expected_ok_runs": 400, "max_functions_runs": 450, "user_exception_runs": 400,
                       "evaluator_step_runs": 80, "filter_induced_too_few": 30, "estimator_induced_too_few": 40, "delivery_checked": 700, "__nontrivial__": 3000},
-            "thorough": {"nan_fault_runs": 15000, "expected_too_few_runs": 7000, "expected_ok_runs": 4000, "max_functions_runs": 10000, "user_exception_runs": 4000,
+            "thorough": {"nan_fault_runs": 15000, "expected_too_few_runs": 7000, "expected_ok_runs": 4000, "max_functions_runs": 4000, "user_exception_runs": 4000,
                          "evaluator_step_runs": 800, "filter_induced_too_few": 300, "estimator_induced_too_few": 400, "delivery_checked": 7000, "__nontrivial__": 30000}}
 N = {"quick": 154, "thorough": 1400}
 KMAX = {"quick": 8, "thorough": 14}
@@ -89,7 +89,9 @@ def gen_base(rng, i):
             spec["lb"], spec["ub"] = [-1.0] * V, [1.0] * V if method not in ("cobyla",) else ([-1.0] * V, [1.0] * V)[1]
             if method == "cobyla":
                 spec.pop("lb"); spec.pop("ub")
-        spec["optimizer"] = {"method": method, "max_iterations": 2 if method != "nelder-mead" else 3, "speculative": bool(rng.random() < 0.3),
+        it = 2 if method != "nelder-mead" else 3
+        # the limit is also given through an options dict: with options=None it would not reach SciPy (known finding of C08)
+        spec["optimizer"] = {"method": method, "max_iterations": it, "options": {"maxiter": it}, "speculative": bool(rng.random() < 0.3),
                              "split_evaluations": bool(rng.random() < 0.3)}
     tkind = rng.choice(["none", "v", "o", "c", "all"], p=[0.4, 0.15, 0.15, 0.15, 0.15])
     tspec = None
@@ -127,6 +129,10 @@ def execute(method, spec, tspec, *, raise_at=None):
             warnings.simplefilter("ignore")
             run.code = plan.run_step(step, config=ens.make_config_dict(spec), transforms=transforms)
     except BaseException as exc:  # noqa: BLE001
+        from vlib.observe import CaseTimeout  # noqa: PLC0415
+
+        if isinstance(exc, (CaseTimeout, KeyboardInterrupt)):
+            raise
         run.exc = exc
     run.plan = plan
     return run
